@@ -63,6 +63,26 @@ def fieldsClosed (d : Decoder) : Bool :=
   d.fields.all (within { startAll := true, endA := true, tid := true, data := true, lookups := true,
                          gstr := true, tpids := true, tnames := true, host := true, hostErrno := true })
 
+
+/-- The fifteen handlers that keep state or look inside their window: modelled by hand in `Model/Trace.lean`
+    (the translator flags them `supported := false`): DBG_DYLD_TIMING_LAUNCH_EXECUTABLE, MACH_vmfault, PERF_Event, PERF_THD_Data, TRACE_DATA_EXEC, TRACE_DATA_NEWTHREAD, TRACE_DATA_THREAD_TERMINATE, TRACE_DATA_THREAD_TERMINATE_PID, TRACE_STRING_EXEC, TRACE_STRING_GLOBAL, TRACE_STRING_NEWTHREAD, TRACE_STRING_PROC_EXIT, TRACE_STRING_THREADNAME, TRACE_STRING_THREADNAME_PREV, VFS_LOOKUP. -/
+def handModelled : List Nat :=
+  [ 37546615664547125651042111325787225986218523288483642591170362114896390145592389,
+    103137406182381590122369215604,
+    1587993892115998174441076,
+    26642116534711866307916144407649,
+    1767049260139265681342534041007048003,
+    1942891208376100481746263316617007171995661844804,
+    140000065953024301223128056095114041869180602355049241755728827461,
+    601295704706082446046587799748568275218505397432517073810452934591020812612,
+    115805340312486933916040246495158147237187,
+    7589418782719143701121613594306686484987658572,
+    127329318232136141208756753540219778027995684091019588,
+    127329318232136141208756753540219815855962161059219796,
+    32596305467426852149441728906296291564341506714900712773,
+    35840016883974226753044359759421547713261427485660917055673234244950,
+    1616346616830909783692624 ]
+
 /-! ### Semantics -/
 
 def ctx (h : Host) (t : Tables) (w : Window) : Ctx := { host := h, tables := t, win := w }
